@@ -141,9 +141,13 @@ class SymAlg:
     def cmp(self, op, a, b):
         d = sp.sympify(a) - sp.sympify(b)
         if d.is_number:
+            if op in ("eq", "ne"):
+                z = sp.simplify(d) == 0
+                return bool(z) if op == "eq" else not bool(z)
             dv = sp.nsimplify(d) if not d.is_Rational else d
-            val = {"lt": dv < 0, "le": dv <= 0, "gt": dv > 0, "ge": dv >= 0,
-                   "eq": sp.expand(dv) == 0, "ne": sp.expand(dv) != 0}[op]
+            if dv.is_real is False:
+                raise TypeError("ordering comparison of the non-real number %s" % dv)
+            val = {"lt": lambda: dv < 0, "le": lambda: dv <= 0, "gt": lambda: dv > 0, "ge": lambda: dv >= 0}[op]()
             return bool(val)
         if op in ("eq", "ne"):
             z = sp.expand(d) == 0
@@ -318,6 +322,9 @@ class X:
     # numpy-scalar look-alike API that code sometimes uses
     def copy(a): return a
     def conjugate(a):
+        hk = getattr(STATE.alg, "conj", None)
+        if hk is not None:
+            return X(hk(a.v))
         h = getattr(a.v, "conjugate", None)
         return X(h()) if h else a
     conj = conjugate
@@ -349,8 +356,26 @@ class xfloat(float, metaclass=_XFloatMeta):
         return float(v)
 
 
+def _exactify(v):
+    if isinstance(v, (float, complex, _np.floating, _np.complexfloating)) and STATE.exact and STATE.alg is not None:
+        return X(val(v))
+    if isinstance(v, _np.ndarray) and v.dtype.kind in "fc" and STATE.exact and STATE.alg is not None:
+        out = _np.empty(v.shape, dtype=object)
+        for idx in _np.ndindex(v.shape):
+            out[idx] = X(val(v[idx]))
+        return out
+    return v
+
+
 class XArray(_np.ndarray):
-    """object ndarray whose cells are exact scalars: astype(float/complex) is the identity (A1)."""
+    """object ndarray whose cells are exact scalars: astype(float/complex) is the identity (A1); raw floats stored
+    into it are converted to exact scalars at once, so no floating-point arithmetic happens between cells."""
+
+    def __setitem__(self, key, value):
+        _np.ndarray.__setitem__(self, key, _exactify(value))
+
+    def fill(self, value):
+        _np.ndarray.fill(self, _exactify(value))
 
     def astype(self, dtype, *a, **k):
         if _inexact(dtype):
@@ -433,6 +458,11 @@ class _DType:
 
 def _real_dtype(d):
     if isinstance(d, _DType):
+        if d.__name__ in ("uint32", "uint64", "uint16", "uint8", "int32", "int16", "int8"):
+            # numba types small-integer array elements combined with integer literals as int64; CPython/numpy would keep
+            # the narrow unsigned type and wrap on subtraction.  Arrays of narrow integers are therefore held as int64
+            # (A2: integers are mathematical; the range obligations of C06 show that no value exceeds 2^30).
+            return _np.dtype(_np.int64)
         return d.dtype
     if d is xfloat:
         return float
